@@ -69,7 +69,8 @@ def write(prop, tier, seed, results, verdict, monitors, wall, rc, units):
                                        verbatim_ratio=e['verbatim_ratio']) for e in ex],
                           rules_fired=r.get('rules_fired'), callees_replaced_by_contract=r.get('replaced'),
                           checks=n_all, failed=n_fail, solver='cbmc 6.11.0 SAT (default)' if 'smt' not in (r.get('checker_cmd') or '') else 'smt',
-                          solver_time_s=r['solver_time_s'], canary=r.get('canary'), bounded=r['bounded'], undecided=r['undecided']))
+                          solver_time_s=r['solver_time_s'], canary=r.get('canary'), bounded=r['bounded'], undecided=r['undecided'],
+                          assume_statements=r.get('assume_statements')))
         if r.get('checker_cmd'): cmds.add(re.sub(r'h_\w+', 'h_<unit>', re.sub(r'--enforce-contract(-rec)? \w+', r'--enforce-contract\1 <unit>', re.sub(r'( --replace-call-with-contract \w+)+', ' --replace-call-with-contract <callee>...', r['checker_cmd']))))
     for u in units:
         for t in getattr(u, 'trusted', []) or []: trusted.add(t)
